@@ -470,15 +470,15 @@ def get(repo=REPO, write=True):
         return _CACHE[repo]
     v = build(repo)
     if write:
-        # per-process output: concurrent runs against different trees (VERIF_REPO) must not share the extracted tables
-        out = os.path.join(BUILD, "vocab", str(os.getpid()))
-        os.makedirs(out, exist_ok=True)
-        with open(os.path.join(out, "vocab.json"), "w") as f:
-            json.dump(v, f, indent=1, sort_keys=True)
-        emit_tla(v, os.path.join(out, "Vocab.tla"))
-        import atexit
-        import shutil
-        atexit.register(shutil.rmtree, out, True)
+        # a copy for inspection only; nothing reads it back (TLC run directories get their own Vocab.tla)
+        try:
+            os.makedirs(BUILD, exist_ok=True)
+            with open(os.path.join(BUILD, "vocab.%d.json" % os.getpid()), "w") as f:
+                json.dump(v, f, indent=1, sort_keys=True)
+            import atexit
+            atexit.register(lambda p=os.path.join(BUILD, "vocab.%d.json" % os.getpid()): os.path.exists(p) and os.remove(p))
+        except OSError:
+            pass
     _CACHE[repo] = v
     return v
 
